@@ -352,6 +352,23 @@ def run_go(ops, binary="bklgo", timeout_ms=20000, mem_mb=3000):
     with ThreadPoolExecutor(n) as ex:
         for r in ex.map(work, shards):
             res.update(r)
+    # A deadline that expired on a loaded machine is not a hang: every op that timed out is run again, alone,
+    # with four times the deadline, before anybody calls it a violation.
+    slow = [o for o in ops if isinstance(res.get(o["id"]), dict) and res[o["id"]].get("timeout")]
+    if slow and not os.environ.get("VERIF_NO_TIMEOUT_RETRY"):
+        env2 = dict(env, BKLGO_TIMEOUT_MS=str(timeout_ms * 4))
+        for o in slow[:40]:
+            rc, out, err = _run_lines([exe], [json.dumps(o, ensure_ascii=False)], env=env2, timeout=3600)
+            for line in out.split("\n"):
+                if line.strip():
+                    try:
+                        j = json.loads(line)
+                    except Exception:
+                        continue
+                    if j.get("id") == o["id"]:
+                        if "timeout" not in j:
+                            j["retried_after_timeout"] = True
+                        res[o["id"]] = j
     return res
 
 
